@@ -24,6 +24,8 @@ from vcheck.core import Task, Violation
 ID = 'C08'
 LEVEL = 'exploration'
 BUDGET = {'quick': 45, 'thorough': 420}
+# deterministic sub-checks repeated in a `python -O` child (core.optimized_child)
+OPT_SUBS = ('typeerror', 'family')
 RULE = ('family: each of the 35 pinned sanitize keys x 5 case variants x 4 '
         'positions (alone, prefixed, suffixed, embedded) x 8 value kinds x 6 '
         'Mapping types, at depth 1 and nested at depth 2, plus single-edit '
